@@ -16,7 +16,7 @@ use std::sync::Mutex;
 use std::time::Instant;
 
 pub const POOL_LIMIT: usize = 65535;
-pub const NKINDS: u64 = 32;
+pub const NKINDS: u64 = 34;
 
 struct B {
     ops: Vec<OpRec>,
@@ -497,6 +497,39 @@ pub fn scenario(seed: u64, idx: u64) -> Trace {
             b.push(Op::Select { table: "Full".into(), cols: vec!["C1".into()], cond: Some(Cond::Cmp("C1".into(), CmpOp::Lt, Val::Int(6))) });
             trace(seed, idx, created, b.ops, &mut rng)
         }
+        // ---- a full pool: replacing a *shared* string by a new one frees nothing
+        32 => {
+            let spec = pool_image(POOL_LIMIT, false, &mut rng);
+            let s6 = Val::Str(format!("Q{}Q", 700_000 + 5));
+            let at = |k: i32| Some(Cond::Cmp("K".into(), CmpOp::Eq, Val::Int(k)));
+            b.push(Op::Update { table: "P".into(), sets: vec![("S2".into(), s6)], cond: at(5) });
+            if idx / NKINDS % 2 == 1 {
+                b.restart(&mut rng);
+            }
+            // row 6's string is still used by row 5: the new one needs an entry there is no room for
+            b.push(Op::Update { table: "P".into(), sets: vec![("S".into(), new_str(1))], cond: at(6) });
+            b.push(Op::Observe);
+            // an unshared one is replaced in place
+            b.push(Op::Update { table: "P".into(), sets: vec![("S".into(), new_str(2))], cond: at(7) });
+            b.push(Op::Observe);
+            b.restart(&mut rng);
+            trace(seed, idx, Init::Foreign(Box::new(spec)), b.ops, &mut rng)
+        }
+        // ---- a full pool with freed entries: a new table's few strings fit
+        33 => {
+            let spec = pool_image(POOL_LIMIT, false, &mut rng);
+            b.push(Op::Delete { table: "P".into(), cond: Some(Cond::Cmp("K".into(), CmpOp::Le, Val::Int(10))) });
+            if idx / NKINDS % 2 == 1 {
+                b.restart(&mut rng);
+            }
+            let mut c2 = ColSpec::new("NewCol2", CType::Str(20)).nullable();
+            c2.category = Some("Identifier".into());
+            b.push(Op::CreateTable { name: "Fresh".into(), cols: vec![ColSpec::new("NewCol", CType::I16).key(), c2] });
+            b.push(Op::Observe);
+            b.push(Op::Insert { table: "Fresh".into(), rows: vec![vec![Val::Int(1), new_str(3)]] });
+            b.restart(&mut rng);
+            trace(seed, idx, Init::Foreign(Box::new(spec)), b.ops, &mut rng)
+        }
         // ---- a seeded ordinary history on top of a near-full pool
         _ => {
             let spec = pool_image(POOL_LIMIT - 1 - rng.usize_below(3), false, &mut rng);
@@ -582,7 +615,7 @@ pub fn check(tier: &str, seed: u64) -> i32 {
     let mut extra = BTreeMap::new();
     extra.insert(
         "scenario_kinds".to_string(),
-        serde_json::json!("0-2 columns 31/32/33; 3-5 rows 65535/65536/65537 in one batch; 6-7 rows incrementally (with restarts); 8 rows after deletions; 9-16 string pool at L-1/L with two-byte references (insert, batch, delete-then-insert, update, create_table, restart in between); 17 three-byte references; 18-19 table/column name lengths; 20 stream name lengths; 21 string widths 254/255/256; 22 16-bit refcount saturation; 23 seeded history on a near-full pool; 24 full pool plus a string with a saturated refcount; 25 one row needing two entries when one is free; 26 _Validation at its own 65,536-row limit; 27 full pool, freed slots, existing strings re-used before new ones; 28 read-only sessions on a full pool; 29 capacity freed by sessions that only lower reference counts; 30 capacity given back by nulling cells; 31 32 columns x 65,536 rows"),
+        serde_json::json!("0-2 columns 31/32/33; 3-5 rows 65535/65536/65537 in one batch; 6-7 rows incrementally (with restarts); 8 rows after deletions; 9-16 string pool at L-1/L with two-byte references (insert, batch, delete-then-insert, update, create_table, restart in between); 17 three-byte references; 18-19 table/column name lengths; 20 stream name lengths; 21 string widths 254/255/256; 22 16-bit refcount saturation; 23 seeded history on a near-full pool; 24 full pool plus a string with a saturated refcount; 25 one row needing two entries when one is free; 26 _Validation at its own 65,536-row limit; 27 full pool, freed slots, existing strings re-used before new ones; 28 read-only sessions on a full pool; 29 capacity freed by sessions that only lower reference counts; 30 capacity given back by nulling cells; 31 32 columns x 65,536 rows; 32 a shared string replaced at a full pool; 33 create_table into freed entries of a full pool"),
     );
     extra.insert("scenarios_per_kind".to_string(), serde_json::json!(kinds.into_inner().unwrap().into_iter().map(|(k, v)| (k.to_string(), v)).collect::<BTreeMap<_, _>>()));
     let rep = CheckReport {
